@@ -1,36 +1,106 @@
 import CollectionsC.Properties.C19
-/-! # C14 (ring buffer part): every allocation and release goes through the configured triple -/
+/-! # C14 (ring buffer part): every allocation and release goes through the buffer's own triple
+
+The model threads two ledgers: the configured triple (`live`, `nalloc`, `nfree`) and the C library
+(`libc`, `liveLibc`, `lalloc`, `lfree`; `Mem.allocT .libc` bumps them, see `Mem.allocT_libc_counts`).
+A ring buffer records the triple it was built with and uses it for its two blocks. -/
 namespace CC.Properties.C14Rbuf
 open CC
 
-theorem alloc_libc (m : Mem) : m.alloc.2.libc = m.libc := by
-  unfold Mem.alloc; split <;> rfl
-
-theorem free_libc (m : Mem) : m.free.libc = m.libc := by
-  unfold Mem.free; split <;> rfl
-
-theorem new_libc_invariant (cap : Nat) (m : Mem) : (Rbuf.new cap m).2.2.libc = m.libc := by
-  unfold Rbuf.new; dsimp only
+/-- a buffer built on the configured triple never touches the C-library ledger, whatever the schedule -/
+theorem conf_new_uses_only_conf (cap : Nat) (m : Mem) :
+    (Rbuf.newT .conf cap m).2.2.libc = m.libc ∧ (Rbuf.newT .conf cap m).2.2.liveLibc = m.liveLibc := by
+  unfold Rbuf.newT; dsimp only [Mem.allocT, Mem.freeT]
+  have a1 := Mem.alloc_keeps_libc m
+  have a2 := Mem.alloc_keeps_libc m.alloc.2
+  have f2 := Mem.free_keeps_libc m.alloc.2.alloc.2
   split
-  · exact alloc_libc m
+  · exact a1
   · split
-    · rw [free_libc, alloc_libc, alloc_libc]
-    · rw [alloc_libc, alloc_libc]
+    · exact ⟨by rw [f2.1, a2.1, a1.1], by rw [f2.2, a2.2, a1.2]⟩
+    · exact ⟨by rw [a2.1, a1.1], by rw [a2.2, a1.2]⟩
 
-theorem destroy_libc_invariant (r : Rbuf) (m : Mem) : (r.destroy m).libc = m.libc := by
-  simp [Rbuf.destroy, free_libc]
+/-- the constructor stores the triple it was given: the buffer remembers where its blocks came from -/
+theorem new_records_triple (t : Triple) (cap : Nat) (m : Mem) (r : Rbuf)
+    (h : (Rbuf.newT t cap m).2.1 = some r) : r.triple = t := by
+  unfold Rbuf.newT at h; dsimp only at h
+  split at h
+  · simp at h
+  · split at h
+    · simp at h
+    · simp only [Option.some.injEq] at h; rw [← h]
 
+/-- a default-constructed buffer (`cc_rbuf_new`, C-library triple) never touches the configured
+ledger and cannot be refused: it succeeds and owns two C-library blocks -/
+theorem default_uses_only_libc (cap : Nat) (m : Mem) :
+    (Rbuf.newT .libc cap m).1 = .ok ∧ (Rbuf.newT .libc cap m).2.2.live = m.live ∧
+    (Rbuf.newT .libc cap m).2.2.sched = m.sched ∧ (Rbuf.newT .libc cap m).2.2.liveLibc = m.liveLibc + 2 ∧
+    (Rbuf.newT .libc cap m).2.2.libc = m.libc + 2 := by
+  simp [Rbuf.newT, Mem.allocT]
+
+/-- `destroy` releases both blocks through the triple the buffer was built with -/
+theorem destroy_uses_own_triple (r : Rbuf) (m : Mem) :
+    (r.triple = .conf → (r.destroy m).libc = m.libc ∧ (r.destroy m).liveLibc = m.liveLibc) ∧
+    (r.triple = .libc → (r.destroy m).live = m.live ∧ (r.destroy m).nfree = m.nfree) := by
+  constructor
+  · intro h
+    simp only [Rbuf.destroy, h, Mem.freeT_conf]
+    have f1 := Mem.free_keeps_libc m
+    have f2 := Mem.free_keeps_libc m.free
+    exact ⟨by rw [f2.1, f1.1], by rw [f2.2, f1.2]⟩
+  · intro h
+    simp only [Rbuf.destroy, h]
+    have key : ∀ a : Mem, (a.freeT .libc).live = a.live ∧ (a.freeT .libc).nfree = a.nfree := by
+      intro a; unfold Mem.freeT; simp only; split <;> exact ⟨rfl, rfl⟩
+    have k1 := key m
+    have k2 := key (m.freeT .libc)
+    exact ⟨by rw [k2.1, k1.1], by rw [k2.2, k1.2]⟩
+
+/-- enqueue/dequeue do not allocate at all: the whole ledger record is returned unchanged -/
 theorem step_libc_invariant (r : Rbuf) (op : Spec.Fifo.Op) (m : Mem) (h : r.Inv) :
-    (r.step op m).2.2.libc = m.libc := by
-  rw [(C19.step_refines r op m h).2.2.2.2]
+    (r.step op m).2.2 = m := (C19.step_refines r op m h).2.2.2.2
 
-/-- statuses, out-values and resulting states do not depend on the ledger at all -/
-theorem allocator_independent (r : Rbuf) (op : Spec.Fifo.Op) (m m' : Mem) (h : r.Inv) :
+theorem history_libc_invariant (ops : List Spec.Fifo.Op) (r : Rbuf) (m : Mem) (h : r.Inv) :
+    (r.run ops m).2.2 = m := (C19.history_refines ops r m h).2.2.2
+
+/-- statuses, out-values and resulting states do not depend on the ledger at all, hence a buffer on a
+pool behaves exactly like one on malloc -/
+theorem allocator_independent (r : Rbuf) (op : Spec.Fifo.Op) (m m' : Mem) :
     (r.step op m).1 = (r.step op m').1 ∧ (r.step op m).2.1 = (r.step op m').2.1 := by
   cases op with
   | enqueue x => exact ⟨rfl, by simp [Rbuf.step, Rbuf.enqueue]⟩
   | dequeue =>
     simp only [Rbuf.step, Rbuf.dequeue]
     split <;> exact ⟨rfl, rfl⟩
+
+theorem history_allocator_independent (ops : List Spec.Fifo.Op) (r : Rbuf) (m m' : Mem) :
+    (r.run ops m).1 = (r.run ops m').1 ∧ (r.run ops m).2.1 = (r.run ops m').2.1 := by
+  induction ops generalizing r m m' with
+  | nil => exact ⟨rfl, rfl⟩
+  | cons op ops ih =>
+    have h := allocator_independent r op m m'
+    simp only [Rbuf.run]
+    rw [h.1, h.2]
+    have := ih (r.step op m').2.1 (r.step op m).2.2 (r.step op m').2.2
+    exact ⟨by rw [this.1], this.2⟩
+
+/-- the constructor's outcome depends on the ledger only through the schedule -/
+theorem new_allocator_independent (cap : Nat) (m m' : Mem) (h : m.sched = m'.sched) :
+    (Rbuf.new cap m).1 = (Rbuf.new cap m').1 ∧ (Rbuf.new cap m).2.1 = (Rbuf.new cap m').2.1 := by
+  have key : ∀ (a b : Mem), a.sched = b.sched → a.alloc.1 = b.alloc.1 ∧ a.alloc.2.sched = b.alloc.2.sched := by
+    intro a b hab
+    unfold Mem.alloc
+    rw [hab]
+    split <;> simp
+  have k1 := key m m' h
+  have k2 := key m.alloc.2 m'.alloc.2 k1.2
+  unfold Rbuf.new Rbuf.newT; dsimp only [Mem.allocT, Mem.freeT]
+  rw [k1.1, k2.1]
+  split
+  · exact ⟨rfl, rfl⟩
+  · split <;> exact ⟨rfl, rfl⟩
+
+/-! Non-vacuity: the C-library counter does move when the model allocates through `.libc` -/
+example : (Rbuf.newT .libc 3 {}).2.2.libc = 2 ∧ (Rbuf.newT .conf 3 {}).2.2.libc = 0 := by decide
 
 end CC.Properties.C14Rbuf
